@@ -25,6 +25,14 @@ def gen_case(ctx, r, kind, total, backend, dup_ids=False):
             g.merge(tip, r.choice(others), 1)
     hs = ql.choose_heads(r, g)
     ops = list(g.ops) + ["H:" + ",".join(map(str, hs))]
+    if r.chance(1, 2):
+        # a commit whose backend write fails (injected I/O error) must change nothing: first commit a
+        # head set that leaves part of the graph uncommitted, then try to commit every tip and fail
+        tips = sorted(set(g.tips()))
+        if hs == tips:
+            hs = sorted(set([r.choice(tips)] if len(tips) > 1 else [r.below(g.n())]))
+            ops[-1] = "H:" + ",".join(map(str, hs))
+        ops.append("Hf:" + ",".join(map(str, tips)))
     queries = [("*g",)]
     n = g.n()
     ys = sorted(set(hs[:2] + [r.below(n) for _ in range(3)])) if n < 1000 else sorted(set(hs[:1] + [r.below(n)]))
@@ -161,6 +169,10 @@ def run(ctx):
         if parsed is None:
             fails.append(("the storage API panicked/failed while building or querying: " + res[:200], line, None))
             continue
+        if sorted(h[0] for h in parsed["heads"]) != sorted(g.idnum[h] for h in hs):
+            fails.append(("get_heads() = %r differs from the last head set whose commit succeeded %r"
+                          % (parsed["heads"], [g.idnum[h] for h in hs]), line, None))
+        stats["failed_commit_cases"] += 1 if " Hf:" in line else 0
         ex = expand(g, hs, queries, parsed)
         nq += len(ex)
         for e in ex:
@@ -204,7 +216,7 @@ def run(ctx):
         "distinct_nontrivial": nontrivial,
         "rule": "case = one graph built through the real storage API (LinearStorageProvider over the memory Manager or the libc "
                 "FileManager), segment lengths drawn around 1,9,10,11,19..21,31..33,63..65, then get_location for EVERY command "
-                "from the committed heads, is_ancestor(X,Y) for every X against several Y, random get_location_from, and a malformed "
+                "from the committed heads (in about half the cases after a further commit_heads of ALL tips whose backend Write::commit fails with an injected I/O error: it must return Err and change neither get_heads nor any answer), is_ancestor(X,Y) for every X against several Y, random get_location_from, and a malformed "
                 "stream (stale/wrong max cuts, unknown ids, arbitrary locations, graphs with duplicated ids); non-trivial = the store "
                 "has a non-empty skip list and the answers contain both found and not-found lookups; every answer is compared with "
                 "true reachability in the generator's DAG (oracle) and with the Coq model on the dumped store; every segment's skip "
